@@ -454,6 +454,11 @@ func callSSA(i *interpreter, caller *frame, callpos token.Pos, fn *ssa.Function,
 	if ext := findExternal(fn); ext != nil {
 		return ext(fr, args)
 	}
+	if fn.Parent() != nil {
+		if ce, ok := closureExternals[fn.String()]; ok {
+			return ce(fr, args, env)
+		}
+	}
 	if fn.Blocks == nil {
 		if fn.Pkg != nil {
 			buildPkg(fn.Pkg)
